@@ -536,3 +536,38 @@ def run(ctx):
     from checks import c17_conn
 
     c17_conn.run(ctx, prog)
+
+    # -- R17.4 -------------------------------------------------------------------------------------------
+    ctx.rule("R17.4", "local quantities that can be negative are brought to slide units with a symmetric rounding (round()), not with int(x + 0.5)")
+    from sa.inline import expand as _exp174
+
+    fbm = prog.modules.get("pptx.shapes.freeform")
+    n174 = 0
+    for name in ("_left", "_top", "_width", "_height"):
+        g = prog.lookup(fbc, name)
+        if g is None:
+            ctx.error("FreeformBuilder.%s" % name, "not found")
+            continue
+        gx = _exp174(prog, g, local_only=True)
+        n174 += 1
+        key = "FreeformBuilder.%s" % name
+        rets = [r.value for r in ast.walk(gx) if isinstance(r, ast.Return) and r.value is not None]
+        signed = any("shape_offset" in ast.unparse(x) or "min_" in ast.unparse(x) for r in rets for x in ast.walk(r))
+        val = {}
+        for st in ast.walk(gx):
+            if isinstance(st, ast.Assign) and len(st.targets) == 1 and isinstance(st.targets[0], ast.Name):
+                val[st.targets[0].id] = st.value
+        signed = signed or any("shape_offset" in ast.unparse(v_) for v_ in val.values())
+        trunc = None
+        for x in [y for r in rets for y in ast.walk(r)] + [y for v_ in val.values() for y in ast.walk(v_)]:
+            # int(<e> + 0.5): rounds half up only for e >= 0 (int() truncates toward zero)
+            if isinstance(x, ast.Call) and dotted(x.func) == "int" and len(x.args) == 1 and isinstance(x.args[0], ast.BinOp) \
+                    and isinstance(x.args[0].op, ast.Add) and any(isinstance(s_, ast.Constant) and s_.value == 0.5 for s_ in (x.args[0].left, x.args[0].right)):
+                trunc = ast.unparse(x)[:60]
+        if trunc and signed:
+            ctx.violation("R17.4", key, "%s is computed as `%s`: int() truncates toward zero, so for a negative product (a freeform whose bounding box "
+                          "starts left of / above the local origin) the result is one EMU too high and the shape's position is not the scaled "
+                          "bounding box" % (key, trunc), file=g.file, line=g.line)
+        else:
+            ctx.ok("R17.4", key, sample={"rounding": "int(x + 0.5) on a non-negative extent" if trunc else "round()", "signed_quantity": signed})
+    ctx.count("freeform_conversions", n174)
